@@ -502,8 +502,8 @@ func buildContainer(b *container.Builder) (container.Environment, string, error)
 		b.Stderr = devNullFile()
 	}
 	env, err := b.Build()
-	for try := 0; err != nil && try < 6 && strings.Contains(err.Error(), "not responding to ping"); try++ {
-		// Build gives the fresh init 3 s to answer its first ping; on a saturated machine that can be too short.
+	for try := 0; err != nil && try < 6 && strings.Contains(err.Error(), "i/o timeout"); try++ {
+		// Build gives the fresh init 3 s to answer its first ping and its configuration; on a saturated machine that can be too short.
 		// Nothing of the failed attempt is kept (Build tears it down), so trying again is not a change of subject.
 		time.Sleep(time.Duration(try+1) * 500 * time.Millisecond)
 		env, err = b.Build()
